@@ -222,8 +222,8 @@ def _mer_case(draw, tier):
     big = tier == "thorough"
     N = draw(st.integers(1, 3))
     Msamp = draw(st.integers(2, 4))
-    R = draw(st.integers(1, 6 if big else 4))
-    H = draw(st.integers(1, 6 if big else 4))
+    R = draw(st.sampled_from([0] + list(range(1, (6 if big else 4) + 1)) * 3))
+    H = draw(st.sampled_from([0] + list(range(1, (6 if big else 4) + 1)) * 3))
     A = draw(st.integers(1, 3))
     eos_kind = draw(st.sampled_from(["none", "outside", "inside"]))
     eos = None if eos_kind == "none" else (A if eos_kind == "outside" else draw(st.integers(0, A - 1)))
@@ -251,15 +251,15 @@ def _mer_case(draw, tier):
 
 @subcheck("C02", "mer_loss", lambda tier: _mer_case(tier), 1200, 25000,
           doc="minimum_error_rate_loss (equal costs, where the error rate is unique): softmax(log_probs) * (er - mean er) by scalar arithmetic; 2-D and 3-D refs, both layouts, every reduction",
-          required_classes=["ref3", "ref2", "sub_avg", "reduction_none", "reduction_sum", "reduction_mean", "very_negative_log_probs"])
+          required_classes=["ref3", "ref2", "sub_avg", "reduction_none", "reduction_sum", "reduction_mean", "very_negative_log_probs", "zero_size_sequence_dim"])
 def _mer_loss(case):
     import torch
 
     F, M = _lib()
     N, Ms, R, H = case["N"], case["M"], case["R"], case["H"]
     eos = case["eos"]
-    hyp = torch.tensor(case["hyps"], dtype=torch.long)  # (N, M, H)
-    ref = torch.tensor(case["refs"], dtype=torch.long)  # (N, R) or (N, M, R)
+    hyp = torch.tensor(case["hyps"], dtype=torch.long).reshape(N, Ms, H)  # (N, M, H)
+    ref = torch.tensor(case["refs"], dtype=torch.long).reshape((N, Ms, R) if case["ref3"] else (N, R))
     if not case["batch_first"]:
         hyp = hyp.permute(2, 0, 1).contiguous()  # (H, N, M)
         ref = (ref.permute(2, 0, 1) if case["ref3"] else ref.t()).contiguous()
@@ -322,6 +322,8 @@ def _mer_loss(case):
         cl.append("eos_set")
     if min(min(rowv) for rowv in case["log_probs"]) < -100:
         cl.append("very_negative_log_probs")
+    if R == 0 or H == 0:
+        cl.append("zero_size_sequence_dim")
     distinct_er = len(set(round(x, 9) for x in flat)) > 1
     return Info(nontrivial=distinct_er, classes=cl)
 
